@@ -9,6 +9,8 @@ cd /verif
 ./bin/kmcheck -dump pinnedfields > /tmp/pinned_fields.$$.json
 ./bin/kmcheck -dump pinnedtypes > /tmp/pinned_types.$$.json
 ./bin/kmcheck -dump pinnedglobals > /tmp/pinned_globals.$$.json
+./bin/kmcheck -dump pinnedconfigkeys > /tmp/pinned_configkeys.$$.json
+mv /tmp/pinned_configkeys.$$.json checker/internal/km/pinned_configkeys.json
 mv /tmp/pinned_globals.$$.json checker/internal/km/pinned_globals.json
 mv /tmp/pinned_types.$$.json checker/internal/km/pinned_types.json
 mv /tmp/pinned_funcs.$$.json checker/internal/km/pinned_funcs.json
